@@ -84,6 +84,7 @@ def cases(draw, kinds=None):
         "model": model,
         "tin": draw(st.sampled_from(TRANSFORMERS)), "tout": draw(st.sampled_from(TRANSFORMERS)),
         "per_variable": draw(st.integers(0, 9)) == 0,
+        "relearn": draw(st.booleans()),
         "query": draw(st.lists(st.lists(st.sampled_from([0.3, 0.45, 0.5, 0.62, 0.7, 0.38]), min_size=3, max_size=3), min_size=1, max_size=3)),
     }
 
@@ -299,6 +300,27 @@ def case_model(p, ctx):
         blk = np.asarray(jd["y"][n])
         ctx.check(blk.shape == (q, 1) and np.abs(blk[:, 0] - j0[:, j]).max() <= 1e-13 * max(1.0, np.abs(j0).max()), "discipline",
                   f"SurrogateDiscipline.linearize d y/d {n} = {blk.ravel()}, model.predict_jacobian column {j0[:, j]}")
+    # ---- re-training of the same object on a subset of the learning samples: the Jacobian must follow the new model
+    # (not generated for MOE: its clustering changes; not for PCE / OT-GP: cost)
+    if p.get("relearn") and kind in ("linear", "poly", "rbf", "tps", "chain"):
+        keep = [i for i in range(len(x)) if i % 3 != 1]
+        model.learn(samples=keep)
+        ctx.cls("relearned_on_a_subset")
+        xq = xb[-1]
+        jac2 = np.asarray(model.predict_jacobian(xq.copy()))
+        ref2, disc2 = stencil(lambda z: np.asarray(model.predict(z.copy())), xq, 2e-3 * wid)
+        scale2 = max(1.0, float(np.abs(ref2).max()), yscale / float(wid.min()))
+        tol2 = 20 * disc2 + 1e-7 * scale2
+        err2 = float(np.abs(jac2 - ref2).max()) if jac2.shape == ref2.shape else float("inf")
+        ctx.check(err2 <= tol2, "jacobian_after_relearning",
+                  f"after learn(samples=subset) predict_jacobian differs from the derivative of the new predict by {err2:.3e} (tolerance {tol2:.2e}) for {p['model']}")
+        data2 = {n: np.array([xq[j]]) for j, n in enumerate(names)}
+        # a fresh discipline: the cache of the first one legitimately holds results of the previous model
+        jd2 = SurrogateDiscipline(model).linearize(data2, compute_all_jacobians=True)
+        for j, n in enumerate(names):
+            blk = np.asarray(jd2["y"][n])
+            ctx.check(blk.shape == (q, 1) and np.abs(blk[:, 0] - jac2[:, j]).max() <= 1e-13 * max(1.0, np.abs(jac2).max()), "discipline",
+                      f"after re-training SurrogateDiscipline.linearize d y/d {n} = {blk.ravel()}, model.predict_jacobian column {jac2[:, j]}")
     nondefault = (p["tin"] != "none" or p["tout"] != "none" or (kind == "rbf" and p["model"]["function"] != "multiquadric"))
     if nondefault and d >= 2:
         ctx.nontriv(p)
